@@ -416,6 +416,7 @@ class EriOrbenergy:
         def cancel(num: e.Expr, denom: list, pref) -> e.Expr:
             num = num.copy()  # avoid in place modification
             cancelled_result = None
+            added_remainder = False
             for bracket_i, bracket in enumerate(denom):
                 bracket_indices = bracket.idx
 
@@ -479,7 +480,12 @@ class EriOrbenergy:
                     if num.sympy is not S.Zero:
                         cancelled_result += \
                             pref * self.eri * num / multiply(denom)
+                    added_remainder = True
                     break
+            # the numerator could not be cancelled completely
+            # -> keep the remaining fraction
+            if cancelled_result is not None and not added_remainder:
+                cancelled_result += pref * self.eri * num / multiply(denom)
             # return just the term if it was not possible to successfully
             # cancel any bracket
             return self.expr if cancelled_result is None else cancelled_result
